@@ -282,6 +282,10 @@ def source_ties(modules):
         if not ok:
             errs = re.findall(r"^error: (\S+?:\d+:\d+: .*)$", lout, flags=re.M)
             out["not_established"][mod] = [e[:300] for e in errs[:6]] or [lout[-600:]]
+            # every file with an error, and every module lake could not build (a file that fails on a missing definition)
+            out.setdefault("broken_files", [])
+            out["broken_files"] = sorted(set(out["broken_files"]) | set(re.findall(r"^error: (Starcal/\S+?\.lean):\d+", lout, flags=re.M))
+                                         | {m.replace(".", "/") + ".lean" for m in re.findall(r"^- (Starcal\.\S+)$", lout, flags=re.M)})
             continue
         aok, thms, problems, n_ex = audit(mod)
         if not aok:
